@@ -495,6 +495,8 @@ def value_getattr(ip, obj, name):
       return NotImplemented
     if name == "dtype":
       return "float32"
+    if name == "set_shape":
+      return Builtin("set_shape", lambda ip_, *a, **k: None)
     if name == "tolist":
       return Builtin("tolist", lambda ip_: obj)
     return NotImplemented
@@ -920,6 +922,14 @@ def _np_array(ip, v, dtype=None, **k):
   if isinstance(v, range):
     return [float(x) for x in v]
   raise Unsupported("np.array of %r" % (v,))
+
+
+@model("np.mod", "np.fmod")
+def _np_mod(ip, a, b):
+  if conc(a) and conc(b):
+    import numpy as np
+    return float(np.mod(a, b))
+  raise Unsupported("np.mod on symbolic values")
 
 
 @model("np.isscalar")
